@@ -76,8 +76,8 @@ def generate(seed, tier):
     sc = {"data": data, "cfg": cfg, "kind": kind, "clock": CK.gen_clock(R.stream(seed, "clock"))}
     if kind == "single":
         L = rw.randrange(1, N + 1)
-        sc["single"] = {"f": round(rw.uniform(0, 0.5) * cfg["fs"], 6), "L": L} if rw.random() < 0.6 else \
-            {"f": round(rw.uniform(0, 0.5) * cfg["fs"], 6), "fres": cfg["fs"] / L}
+        fsing = rw.choice([0.0, 0.5 * cfg["fs"]]) if rw.random() < 0.12 else round(rw.uniform(0, 0.5) * cfg["fs"], 6)   # incl. DC and Nyquist
+        sc["single"] = {"f": fsing, "L": L} if rw.random() < 0.6 else {"f": fsing, "fres": cfg["fs"] / L}
         cfg["band"] = None
     if kind == "band1":
         cfg["band"] = None
@@ -149,10 +149,11 @@ def _close(a, b, rel=1e-12, abs_=0.0):
         return False
     with np.errstate(all="ignore"):
         both_nan = np.isnan(a) & np.isnan(b)
-        same_inf = (a == b)
+        same = (a == b)
+        fin = np.isfinite(a) & np.isfinite(b)       # an infinity only matches the same infinity
         d = np.abs(a - b)
-        ok = d <= rel * np.maximum(np.abs(a), np.abs(b)) + abs_
-    return bool(np.all(ok | both_nan | same_inf))
+        ok = fin & (d <= rel * np.maximum(np.abs(a), np.abs(b)) + abs_)
+    return bool(np.all(ok | both_nan | same))
 
 
 def make_result(sc, out):
